@@ -436,12 +436,21 @@ func RunC12(ctx *core.Ctx) *core.Violation {
 			if !ok || m.pos >= N {
 				return nil
 			}
-			_, pn := m.z.PeekRune(0)
+			// what was looked at last must not matter: the rune at the position, a rune further
+			// ahead, or nothing at all since the last move
+			pn := -1
+			switch look := t.Draw(3); {
+			case look == 0:
+				_, pn = m.z.PeekRune(0)
+			case look == 1 && N-m.pos > 1:
+				m.z.PeekRune(1 + t.Draw(min(6, N-m.pos-1)))
+				ctx.Count("probe_moverune_after_lookahead")
+			}
 			before := m.z.Offset()
 			mr.MoveRune()
 			adv := m.z.Offset() - before
 			ctx.L.Ev("MoveRune", int64(adv))
-			if adv != pn {
+			if pn >= 0 && adv != pn {
 				return m.viol("moverune-wrong", "MoveRune() at offset %d of %d advanced by %d but PeekRune(0) reports length %d", m.pos, N, adv, pn)
 			}
 			if adv < 1 || m.pos+adv > N {
